@@ -177,6 +177,10 @@ impl Family for C08 {
     Json::obj(vec![
       ("sched", Json::str(if rng.below(100) < 12 { "default" } else { "new_thread" })),
       ("callers", Json::Arr(callers)),
+      // fire and forget: every handle of the scheduler is dropped after the last call, without abort
+      // (what was posted with no abort pending must still run; the parked worker that is left over is
+      // by design - the scheduler has no Drop)
+      ("drop_handles", Json::Bool(rng.below(6) == 0)),
     ])
   }
 
@@ -213,6 +217,7 @@ impl Family for C08 {
     if sorted.len() != ids.len() {
       return RunOut::invalid();
     }
+    let drop_handles = w.get("drop_handles").is_some() && w.b("drop_handles") && !use_default;
     // ---- run
     let l: Log = Arc::new(Mutex::new(Vec::new()));
     let l_main = l.clone();
@@ -236,6 +241,10 @@ impl Family for C08 {
       for h in hs {
         let _ = h.join();
       }
+      let mut sched = Some(sched);
+      if drop_handles {
+        sched = None;
+      }
       // every thread the scheduler itself started counts as "the worker thread(s)"
       let summary = |t: &[rt::TaskInfo]| -> (bool, u64) {
         let libs: Vec<&rt::TaskInfo> = t.iter().filter(|x| x.origin == Origin::Library).collect();
@@ -245,10 +254,12 @@ impl Family for C08 {
       let (fin, st) = summary(&t);
       log(&l, Ev::Quiesce { n: 1, worker_finished: fin, worker_steps: st });
       // clean stop so that a legitimately parked worker does not outlive the run
-      sched.abort();
-      let t = rt::quiesce();
-      let (fin, st) = summary(&t);
-      log(&l, Ev::Quiesce { n: 2, worker_finished: fin, worker_steps: st });
+      if let Some(sched) = &sched {
+        sched.abort();
+        let t = rt::quiesce();
+        let (fin, st) = summary(&t);
+        log(&l, Ev::Quiesce { n: 2, worker_finished: fin, worker_steps: st });
+      }
     });
     let worker = *worker_cell.lock().unwrap();
     let mut evs = l.lock().unwrap().clone();
@@ -267,7 +278,7 @@ impl Family for C08 {
       };
       fp = fp.wrapping_mul(0x100000001B3).wrapping_add(k);
     }
-    let violations = check(&evs, &res, use_default, worker);
+    let violations = check(&evs, &res, use_default, worker, drop_handles);
     let mut reach = Vec::new();
     let any_abort = evs.iter().any(|(_, e)| matches!(e, Ev::AbortInv { .. }));
     reach.push(("c08-history-with-abort", any_abort as u64));
@@ -277,10 +288,12 @@ impl Family for C08 {
   }
 }
 
-fn check(evs: &[(u64, Ev)], res: &rt::RunResult, use_default: bool, worker: Option<usize>) -> Vec<Violation> {
+fn check(evs: &[(u64, Ev)], res: &rt::RunResult, use_default: bool, worker: Option<usize>, drop_handles: bool) -> Vec<Violation> {
   let blame = if use_default { "default_scheduler" } else { "new_thread_scheduler" };
   let mut v = Vec::new();
-  if let Some(o) = outcome_violation(res, blame) {
+  // with every handle dropped and no abort, the parked worker that is left over is by design
+  let tolerated_leak = drop_handles && matches!(res.outcome, rt::Outcome::Leak { .. });
+  if let Some(o) = outcome_violation(res, blame).filter(|_| !tolerated_leak) {
     // a Leak here means the worker survived even the final abort
     v.push(o);
     return v;
